@@ -112,6 +112,7 @@ RULES = {
     'R10': 'for [&]v in Q.iter() { B }  ->  for r10_i in 0..Q.len() { let v = [&]Q[r10_i]; B }',
     'R11': 'for x in (A..B).rev() { S }  ->  for r11_k in A..B { let x = B - 1 - (r11_k - A); S }',
     'R12': 'a private helper method without a contract and without `return` is inlined at its call sites: f(a, b) -> { let r12_0 = (a); let r12_1 = (b); let p = r12_0; let q = r12_1; BODY } (modular verification cannot see through an uncontracted call)',
+    'M4': '#[derive(Clone)] is expanded to the field-wise clone it generates (view fields: clone_view, Copy scalars: copy, Vec/VecDeque of scalars: trusted deque_clone/vec_clone); a hand-written Clone impl is left unverified and reported',
     'R13': 'guard-style early returns `if c { return e; }` of an inlined helper become `if c { e } else { rest }`',
     'F1': 'a private struct field was renamed (same field types in the same order): the contract text follows the rename',
     'R6': 'Vec::last().copied() -> same call on a shim helper vec_last(&v) (contract: last element or None)',
@@ -566,6 +567,32 @@ def inline_helpers(body, helpers, applied):
         if not changed: break
     return body
 
+def emit_clone_view(em, module, struct_name, fields, derived, report):
+    """M4: the field-wise clone that `#[derive(Clone)]` generates, as the trait's clone_view; a view whose Clone is hand-written
+    (or absent) gets an unverified clone_view and is reported, so that C17 cannot be claimed proved for it"""
+    start = em.lineno() + 1
+    if not derived:
+        report.setdefault('clone_unverified', []).append(module)
+        em.add('    #[verifier::external_body] fn clone_view(&self) -> (r: Self) { unimplemented!() }')
+        return
+    parts = []
+    for name, ty in fields:
+        if ty in ('T', 'usize', 'bool', 'Option<T>', 'Option<usize>', 'u32', 'i32', 'u64', 'f64'): e = 'self.%s' % name
+        elif ty == 'VecDeque<T>': e = 'deque_clone(&self.%s)' % name
+        elif ty == 'Vec<T>': e = 'vec_clone(&self.%s)' % name
+        elif ty.startswith('std::marker::PhantomData') or ty.startswith('PhantomData'): e = 'std::marker::PhantomData'
+        elif re.match(r'^[A-Z]$', ty) or re.match(r'^[A-Z]\w*<[\w, <>]*>$', ty) and ty.split('<')[0] in VIEW_NAMES: e = 'self.%s.clone_view()' % name
+        else: raise ExtractError('M4: field %s.%s of type %s is outside the clone rules' % (struct_name, name, ty))
+        parts.append('%s: %s' % (name, e))
+    em.add('    fn clone_view(&self) -> (r: Self)')
+    em.add('    {')
+    em.add('        let r = %s { %s };' % (struct_name, ', '.join(parts)))
+    em.add('        proof { assert(r.inv() && r.abs() == self.abs()); }',
+           dict(module=module, fn='clone_view', kind='ensures', label='clone', tags=['C17'], text='r.inv() && r.abs() == self.abs()   (clone of a view is a view in the same abstract state)'))
+    em.add('        r')
+    em.add('    }')
+    em.fnspans.append((start, em.lineno(), module, 'clone_view'))
+
 def sha(s):
     return hashlib.sha256(s.encode()).hexdigest()[:16]
 
@@ -594,6 +621,9 @@ def process_file(em, path, report):
             old = [tuple(x) for x in LOOP_HEADERS[fkey]]
             if [t for _, t in old] == [t for _, t in flds] and [n for n, _ in old] != [n for n, _ in flds]:
                 rename = {o: n for (o, _), (n, _) in zip(old, flds) if o != n}
+    derives_clone = bool(re.search(r'#\[derive\([^)]*\bClone\b[^)]*\)\]\s*(?:#\[[^\]]*\]\s*)*(?:///[^\n]*\n\s*)*pub struct', src))
+    manual_clone = bool(re.search(r'\bimpl\b[^{;]*\bClone\s+for\b', s))
+    struct_fields = flds if sm else []
     vc = Contract(os.path.join(VF, 'contracts', stem + '.vc'), rename)
     applied = set(['M1', 'M2'])
     if rename: applied.add('F1')
@@ -618,6 +648,8 @@ def process_file(em, path, report):
                 if not bounded:
                     report.setdefault('unbounded_buffers', []).append('%s.%s' % (struct_name, bf))
             em.add(h + ' {' + fields + '\n}')
+        elif h.startswith('impl') and re.search(r'\bClone\s+for\b', h):
+            continue                                           # hand-written Clone: dropped, the view is reported under clone_unverified (M4)
         elif h.startswith('impl'):
             is_trait = bool(re.search(r'\bView for\b', h))
             em.add(h + ' {')
@@ -642,6 +674,9 @@ def process_file(em, path, report):
                 name = inject_fn(em, stem, vc, fh, fb2, is_trait, struct_name)
                 applied |= ap
                 fns.append(dict(module=stem, fn=name, sha256=sha(fb), rules=sorted(ap), body_lines=fb.count('\n')))
+            if is_trait:
+                emit_clone_view(em, stem, struct_name, struct_fields, derives_clone and not manual_clone, report)
+                applied.add('M4')
             if not is_trait and getters:
                 applied.add('M3')
                 for g, ty in getters:
